@@ -368,7 +368,8 @@ C4 == Comb(<<TI, TN, TStr, TB>>)
 D3q == { <<"option", C4>>, <<"list", C4>>, <<"set", <<"pair", TI, TStr>>>>, <<"map", Comb(<<TN, TStr, TB>>), C4>>,
          <<"or", C4, <<"list", TI>>>>, Comb(<<<<"option", TI>>, <<"list", TN>>, <<"set", TStr>>, <<"map", TI, TB>>>>),
          <<"pair", TI, <<"option", <<"pair", TN, TStr>>>>>>, <<"option", <<"option", TTs>>>>, <<"list", <<"list", TAddr>>>>,
-         <<"map", <<"or", TI, TStr>>, <<"option", TKh>>>>, <<"set", <<"option", TTs>>>>, <<"list", <<"or", TKey, TSig>>>> }
+         <<"map", <<"or", TI, TStr>>, <<"option", TKh>>>>, <<"set", <<"option", TTs>>>>, <<"list", <<"or", TKey, TSig>>>>,
+         <<"set", <<"or", TN, TN>>>>, <<"map", <<"or", TStr, TStr>>, TI>> }        \* Left v and Right v with the same v are different keys
 \* ... and a systematic layer in the thorough tier
 Sel2 == { <<"option", TI>>, <<"option", TTs>>, <<"list", TN>>, <<"list", TAddr>>, <<"set", TStr>>, <<"set", TTs>>, <<"or", TI, TStr>>, <<"or", TKh, TB>>,
           <<"pair", TI, TStr>>, <<"pair", TTs, TKey>>, <<"map", TStr, TI>>, <<"map", TAddr, TTs>>, Comb(<<TI, TStr, TB>>), C4,
